@@ -263,9 +263,11 @@ Lemma vinv_step_run D bpre j k c r t' :
   ws5 c = true -> forallb ws5 r = true -> (match t' with [] => True | d :: _ => ws5 d = false end) ->
   exists bpre1 i1 j' k',
     ws_body (bpre ++ c :: r ++ t') (len bpre) j k = Ok (bpre1 ++ t', i1, j', k') /\
-    i1 = len bpre1 /\ len bpre1 = len bpre + 1 + len r /\ VInv (D ++ [run_mark (c :: r)]) bpre1 j' k'.
+    i1 = len bpre1 /\ len bpre1 = len bpre + 1 + len r /\ VInv (D ++ [run_mark (c :: r)]) bpre1 j' k' /\
+    (exists x s, bpre1 = x ++ [s] /\ ws5 s = true).
 Proof.
   intros H Hc Hr Ht.
+  assert (Hmk : ws5 (run_mark (c :: r)) = true) by (unfold run_mark; destruct (existsb nl2 (c :: r)); reflexivity).
   set (mk := run_mark (c :: r)) in *.
   rewrite (ws_body_run bpre c r t' j k Hc Hr Ht). cbv zeta. fold mk.
   pose proof (len_nonneg bpre) as Hb0. pose proof (len_nonneg r) as Hr0.
@@ -274,17 +276,24 @@ Proof.
     exists (bpre ++ [mk]), (len bpre + 1 + 0), j, k. split; [rewrite <- app_assoc; reflexivity|].
     split; [rewrite len_app; change (len [mk]) with 1; lia|].
     split; [rewrite len_app; change (len [mk]) with 1; lia|].
-    apply vinv_app. exact H.
+    split; [apply vinv_app; exact H|]. exists bpre, mk. split; [reflexivity|exact Hmk].
   - set (r := r1 :: r') in *. assert (Hr1 : 1 <= len r) by (unfold r; rewrite len_cons; pose proof (len_nonneg r'); lia).
     replace (1 <? 1 + len r) with true by lia.
+    assert (Hlast : exists r0 s, r = r0 ++ [s] /\ ws5 s = true).
+    { destruct (exists_last (l := r)) as (r0 & s & E); [discriminate|]. exists r0, s. split; [exact E|].
+      rewrite E in Hr. rewrite forallb_app in Hr. apply andb_true_iff in Hr. destruct Hr as [_ Hs].
+      cbn [forallb] in Hs. rewrite andb_true_r in Hs. exact Hs. }
+    destruct Hlast as (r0 & s0 & Er & Hs0).
     destruct H as [(-> & -> & Hb)|(A & M & C & Hb & HA & HM & Hj & Hm & Hcc)].
     + replace (0 =? 0) with true by reflexivity.
       exists (bpre ++ mk :: r), (len bpre + 1 + len r), (len bpre + 1), (len bpre + 1 + len r).
       split; [rewrite <- app_assoc; reflexivity|].
       split; [rewrite len_app, len_cons; lia|].
       split; [rewrite len_app, len_cons; lia|].
-      right. exists (bpre ++ [mk]), r, []. rewrite !app_nil_r, <- Hb, <- app_assoc.
-      repeat split; try reflexivity; try lia. rewrite len_app. change (len [mk]) with 1. lia.
+      split.
+      * right. exists (bpre ++ [mk]), r, []. rewrite !app_nil_r, <- Hb, <- app_assoc.
+        repeat split; try reflexivity; try lia. rewrite len_app. change (len [mk]) with 1. lia.
+      * exists (bpre ++ mk :: r0), s0. split; [rewrite Er, <- app_assoc; reflexivity|exact Hs0].
     + replace (j =? 0) with false by lia.
       assert (E : bpre ++ mk :: r ++ t' = A ++ M ++ (C ++ [mk]) ++ (r ++ t'))
         by (rewrite Hb, <- !app_assoc; reflexivity).
@@ -300,8 +309,10 @@ Proof.
       split; [rewrite <- !app_assoc; reflexivity|].
       split; [rewrite !len_app; change (len [mk]) with 1; lia|].
       split; [rewrite !len_app; change (len [mk]) with 1; lia|].
-      right. exists (A ++ C ++ [mk]), (G ++ r), []. rewrite !app_nil_r, <- Hcc, <- !app_assoc.
-      repeat split; try reflexivity; rewrite !len_app; change (len [mk]) with 1; pose proof (len_nonneg C); lia.
+      split.
+      * right. exists (A ++ C ++ [mk]), (G ++ r), []. rewrite !app_nil_r, <- Hcc, <- !app_assoc.
+        repeat split; try reflexivity; rewrite !len_app; change (len [mk]) with 1; pose proof (len_nonneg C); lia.
+      * exists (A ++ (C ++ [mk]) ++ G ++ r0), s0. split; [rewrite Er, <- !app_assoc; reflexivity|exact Hs0].
 Qed.
 
 Lemma inv_step_run pre bpre j k c r t' :
@@ -314,7 +325,7 @@ Proof.
   intros [Hl H] Hp Hc Hr Ht.
   assert (Hrun : forallb ws5 (c :: r) = true) by (cbn [forallb]; rewrite Hc, Hr; reflexivity).
   pose proof (collapse_closed_run pre (c :: r) Hp ltac:(discriminate) Hrun) as Hcol.
-  destruct (vinv_step_run _ bpre j k c r t' H Hc Hr Ht) as (bpre1 & i1 & j' & k' & E & Hi & Hlen & HV).
+  destruct (vinv_step_run _ bpre j k c r t' H Hc Hr Ht) as (bpre1 & i1 & j' & k' & E & Hi & Hlen & HV & _).
   exists bpre1, i1, j', k'. split; [exact E|]. split; [exact Hi|]. split.
   - rewrite len_app, len_cons. lia.
   - rewrite Hcol. exact HV.
